@@ -1,0 +1,11 @@
+//go:build verif
+
+package json
+
+import "github.com/Workiva/frugal/compiler/parser"
+
+// VerifCollectFrugals exposes collectFrugals (the files that go into frugal.json, in the order
+// they are collected) to the verification harness. Add-only; compiled only with -tags verif.
+func VerifCollectFrugals(pf *parser.Frugal) []*parser.Frugal {
+	return collectFrugals(pf, []*parser.Frugal{}, map[string]struct{}{})
+}
